@@ -3,6 +3,9 @@
 
 class Line2D:
     def __init__(self, xdata, ydata, **kwargs):
+        # A-MPL: fillstyle is one of the documented style names (a flag is refused)
+        if 'fillstyle' in kwargs and not (isinstance(kwargs['fillstyle'], str) and kwargs['fillstyle'] in ('full', 'left', 'right', 'bottom', 'top', 'none')):
+            raise ValueError(str(kwargs['fillstyle']) + ' is not a valid value for fillstyle')
         self.xdata = xdata
         self.ydata = ydata
         self.kwargs = dict(kwargs)
